@@ -235,6 +235,11 @@ def run(ctx):
             i = aidx[0]; payload = {"op": alines[i], "c_output": a_c[i], "model_output": a_m[i]}
         payload.update({"kind": "correspondence-broken", "theorems_no_longer_tied": [t["name"] for t in ths], "count": len(corr) + len(aidx)})
         violation(ctx, "corr_%d.json" % ctx.seed, payload, no_failing_input=True)
+    # a reference map attached to the builder is reset with it (flatcc_builder_reset -> flatcc_refmap_reset): after a reset it must behave as a fresh map
+    from props import c18
+    rm_lines, rm_fail, rm_tie = c18.reset_stage(ctx)
+    if rm_fail:
+        violation(ctx, "refmap_reset_%d.json" % ctx.seed, rm_fail, no_failing_input=rm_tie)
     nbuild = sum(1 for x in finfo if x and x[0] == "build")
     kinds = {}
     for l in flat:
@@ -246,7 +251,7 @@ def run(ctx):
                 "k-th emit fails, abandoned build + open user frame, 10..200 tables left open}; reset (reduce 0/1); footprint; build X] repeated for "
                 "%d cycles; every `build X` must equal a fresh C builder's output under the same settings and (no limits) the Lean model's fresh build; "
                 "footprint after reset in the last cycle must not exceed cycle 1. default_alloc growth policy vs model on random request sequences." % cycles,
-        "blocks": len(blocks), "cycles": cycles, "builds_after_reset": nbuild, "ops": kinds, "alloc_sequences": len(alines),
+        "refmap_reset_histories": rm_lines, "blocks": len(blocks), "cycles": cycles, "builds_after_reset": nbuild, "ops": kinds, "alloc_sequences": len(alines),
         "footprint_samples": sum(len(v) for per in mems.values() for v in per.values()),
         "traces_validated_against_impl": nbuild + len(alines), "correspondence_disagreements": len(corr) + len(aidx), "spec_oracle_failures": len(spec) + len(grow)})
     ctx.samples = [{"history": b[:8]} for b in blocks[:2]]
